@@ -194,8 +194,10 @@ pub fn rfc2822_target(data: &[u8]) -> R {
         }
         if (0..=9999).contains(&z.year()) {
             match rfc2822::to_string(&z) {
+                // a value that came out of this parser has whole seconds and a whole-minute
+                // offset: printing and re-parsing must give it back exactly
                 Ok(text) => match rfc2822::parse(&text) {
-                    Ok(b) if b.datetime() == z.datetime().round(jiff::Unit::Second).unwrap_or(z.datetime()) || b.datetime().date() == z.datetime().date() => {}
+                    Ok(b) if b.timestamp() == z.timestamp() && b.offset() == z.offset() && b.datetime() == z.datetime() => {}
                     other => bail!("rfc2822-reprint", "{z} -> {text:?} -> {other:?}"),
                 },
                 Err(e) => bail!("rfc2822-print-err", "{z}: {e}"),
@@ -205,6 +207,23 @@ pub fn rfc2822_target(data: &[u8]) -> R {
     if let Ok(ts) = p.parse_timestamp(data) {
         accept();
         ts_ok("rfc2822-timestamp", ts)?;
+        // both printers of a timestamp (RFC 2822 and the RFC 9110 / HTTP form) give text that
+        // parses back to the same instant; they fail only for years outside 0..=9999
+        let utc_year = jiff::tz::Offset::UTC.to_datetime(ts).year();
+        let pr = rfc2822::DateTimePrinter::new();
+        for (what, printed) in [("rfc2822-timestamp-reprint", pr.timestamp_to_string(&ts)), ("rfc9110-timestamp-reprint", pr.timestamp_to_rfc9110_string(&ts))] {
+            match printed {
+                Ok(text) => match p.parse_timestamp(&text) {
+                    Ok(b) if b == ts => {}
+                    other => bail!(what, "{ts} -> {text:?} -> {other:?}"),
+                },
+                Err(e) => {
+                    if (0..=9999).contains(&utc_year) {
+                        bail!(what, "{ts}: printing failed although the UTC year {utc_year} is representable: {e}");
+                    }
+                }
+            }
+        }
     }
     Ok(())
 }
@@ -214,6 +233,20 @@ pub fn rfc2822_target(data: &[u8]) -> R {
 pub fn strtime_target(data: &[u8]) -> R {
     let split = data.iter().position(|&b| b == 0xFF || b == 0).unwrap_or(data.len());
     let (fmt, input) = (&data[..split], data.get(split + 1..).unwrap_or(&[]));
+    // the prefix parser: Ok or Err, and what it says it consumed is a prefix of the input
+    if let Ok((_, used)) = strtime::BrokenDownTime::parse_prefix(fmt, input) {
+        accept();
+        if used > input.len() {
+            bail!("strptime-prefix-length", "parse_prefix({:?}, {:?}) consumed {used} of {} bytes", String::from_utf8_lossy(fmt), String::from_utf8_lossy(input), input.len());
+        }
+    }
+    // ... and when the whole input parses, the prefix parser consumes all of it
+    if strtime::parse(fmt, input).is_ok() {
+        match strtime::BrokenDownTime::parse_prefix(fmt, input) {
+            Ok((_, used)) if used == input.len() => {}
+            other => bail!("strptime-prefix-disagrees", "parse({:?}, {:?}) succeeds but parse_prefix gives {:?}", String::from_utf8_lossy(fmt), String::from_utf8_lossy(input), other.map(|x| x.1).map_err(|e| e.to_string())),
+        }
+    }
     if let Ok(tm) = strtime::parse(fmt, input) {
         accept();
         if let Ok(ts) = tm.to_timestamp() {
